@@ -46,27 +46,35 @@ func (p *PKCS7PaddingReader) Read(buf []byte) (int, error) {
 	var n, off = 0, 0
 	var err error
 	if !p.eof {
-		// 读取文件
-		n, err = p.fIn.Read(buf)
-		if err != nil && !errors.Is(err, io.EOF) {
-			// 错误返回
-			return 0, err
+		// 读取文件: 短读取不代表文件结束，继续读取直到填满 buf 或者文件结束
+		for n < len(buf) {
+			var m int
+			m, err = p.fIn.Read(buf[n:])
+			n += m
+			p.readed += int64(m)
+			if err != nil && !errors.Is(err, io.EOF) {
+				// 错误返回
+				return n, err
+			}
+			if errors.Is(err, io.EOF) {
+				// 标志文件结束
+				p.eof = true
+				break
+			}
+			if m == 0 {
+				// 没有进展，交还调用者
+				return n, nil
+			}
 		}
-		p.readed += int64(n)
-		if errors.Is(err, io.EOF) {
-			// 标志文件结束
-			p.eof = true
-		}
-		if n == len(buf) {
+		if !p.eof {
 			// 长度足够直接返回
 			return n, nil
 		}
-		// 文件长度已经不足，根据已经已经读取的长度创建Padding
+		// 文件已经结束，根据已经读取的长度创建Padding
 		p.newPadding()
 		// 长度不足向Padding中索要
 		off = n
 	}
-
 	if !p.eop {
 		// 读取流
 		var n2 = 0
@@ -95,6 +103,7 @@ type PKCS7PaddingWriter struct {
 	swap      []byte        // 临时交换区
 	out       io.Writer     // 输出位置
 	blockSize int           // 分块大小
+	written   int64         // 已写入的总长度
 }
 
 // NewPKCS7PaddingWriter PKCS#7 填充Writer 可以去除填充
@@ -111,9 +120,13 @@ func (p *PKCS7PaddingWriter) Write(buff []byte) (n int, err error) {
 	if err != nil {
 		return 0, err
 	}
-	if p.cache.Len() > p.blockSize {
+	p.written += int64(n)
+	for p.cache.Len() > p.blockSize {
 		// 把超过一个分组长度的部分读取出来，写入到实际的out中
 		size := p.cache.Len() - p.blockSize
+		if size > len(p.swap) {
+			size = len(p.swap)
+		}
 		_, _ = p.cache.Read(p.swap[:size])
 		_, err = p.out.Write(p.swap[:size])
 		if err != nil {
@@ -129,7 +142,7 @@ func (p *PKCS7PaddingWriter) Final() error {
 	// 在Write 之后 cache 只会保留一个Block长度数据
 	b := p.cache.Bytes()
 	length := len(b)
-	if length != p.blockSize {
+	if length != p.blockSize || p.written%int64(p.blockSize) != 0 {
 		return errors.New("非法的PKCS7填充")
 	}
 	if length == 0 {
@@ -138,6 +151,11 @@ func (p *PKCS7PaddingWriter) Final() error {
 	unpadding := int(b[length-1])
 	if unpadding > p.blockSize || unpadding == 0 {
 		return errors.New("非法的PKCS7填充")
+	}
+	for _, v := range b[length-unpadding:] {
+		if int(v) != unpadding {
+			return errors.New("非法的PKCS7填充")
+		}
 	}
 	_, err := p.out.Write(b[:(length - unpadding)])
 	return err
